@@ -103,4 +103,6 @@ def handleC02 (j : Json) : Except String Verdict := do
       | some (sig, d) => .mismatch sig d
       | none => .ok
 
-def main : IO Unit := runDriver handleC02
+def main : IO Unit := runDriver fun j => match handleC02 j with
+  | .ok v => .ok (sanitize v)
+  | .error e => .error (oneLine e)
